@@ -10,8 +10,8 @@ PROP = dict(
         "sink_prefix_invariant", "glyph_map_split_is_lossless", "rewrite_preserves_text",
         "rewrite_diag_in_range", "consumed_up_to_first_eof", "front_end_lossless",
         "positions_consistent",
-        "err_range_in_source", "err_range_on_char_boundaries", "err_before_ws_in_source_iff",
-        "err_before_ws_refuted", "include_validate_terminates", "include_assembly_terminates",
+        "err_range_in_source", "err_range_on_char_boundaries",
+        "err_before_ws_range_on_char_boundaries", "include_validate_terminates", "include_assembly_terminates",
         "include_cycle_is_reported", "include_depth_limit_refuted",
     ],
     prelude="Require Import FV.C13.Model FV.C13.Tie.\nFrom Coq Require Import List NArith Bool Arith.\nOpen Scope nat_scope.",
@@ -42,4 +42,9 @@ PROP = dict(
                  "validation (compile/validate.rs) and typed AST accessors are not modelled, only exercised",
                  "source loading, path resolution and the parse queue of ParseContext::parse are not modelled (the include "
                  "graph is the model's input)"],
+)
+
+MANIFEST = dict(
+    text="Coq model of the fea-rs front end below the grammar: the lexer byte for byte, the parser primitives (4-slot lookahead with attached trivia, advance, eat_trivia, do_bump, split_remap_current, the err family), the token sink / tree builder (finish_node, the contextual-rule rewrite, positions) and include-graph validation. Theorems for EVERY sequence of primitive calls (any grammar) and every input: the lexer terminates and tiles the input on character boundaries and never yields EOF inside it; the sink's token texts always equal the consumed prefix (sink_prefix_invariant); the rewrite preserves text; at EOF the tree spells the whole input (front_end_lossless, with or without a glyph map); positions are consistent; diagnostic ranges lie in the source on character boundaries; include validation and assembly terminate on every graph and cycles are reported. Tied to the code on every run: lexer and primitive-call sequences driven through hooks and compared with the model state; the real parser and validator run on corpus, mutated and grammar-generated texts under a watchdog with the direct predicates (no panic/hang, token concatenation = input, diagnostics in range, include cycles reported).",
+    note='Trusted: Coq kernel + vm_compute; hand-written model and its correspondence run; hooks in fea-rs; Rust harness with worker processes. No axioms. Partial: termination/totality of the ~3000-line grammar and of validation is only exercised; nine defects repaired in /repo, four known findings listed.',
 )
